@@ -5,7 +5,7 @@ import itertools
 import json
 
 from harness import core, project as P
-from harness.common import pmap
+from harness.common import pmap, perturb_returned_defaults
 
 core.import_scoda()
 from scoda.elements.bar import Bar  # noqa: E402
@@ -18,9 +18,12 @@ DEFAULT_STEPS = [2, 3, 4, 6, 8, 12, 16, 24]
 
 # ------------------------------------------------------------------ configuration / pieces
 
-def make_tokeniser(c):
-    return Tokeniser(ppqn=c["ppqn"], num_tracks=c["tracks"], pitch_range=(c["pitLo"], c["pitHi"]),
-                     step_sizes=sorted(c["steps"]), note_values=sorted(c["values"]), velocity_bins=c["nbins"],
+def make_tokeniser(c, defaults=False):
+    """defaults=True: where the configuration equals the library defaults, rely on the default arguments"""
+    steps = None if defaults and sorted(c["steps"]) == DEFAULT_STEPS else sorted(c["steps"])
+    values = None if defaults and sorted(c["values"]) == [4, 6, 8, 9, 12, 16, 18, 24, 36] else sorted(c["values"])
+    return Tokeniser(ppqn=None if defaults and c["ppqn"] == 24 else c["ppqn"], num_tracks=c["tracks"], pitch_range=(c["pitLo"], c["pitHi"]),
+                     step_sizes=steps, note_values=values, velocity_bins=c["nbins"],
                      time_signature_range=(c["tsLo"], c["tsHi"]), flag_running_values=c["running"],
                      flag_fuse_track=c["fuseTrk"], flag_fuse_value=c["fuseVal"], flag_fuse_velocity=c["fuseVel"])
 
@@ -112,8 +115,9 @@ def roundtrip(case):
             "codecIdentity": False, "out": EMPTY_OUT, "parsed": [], "parsedOk": False, "tokens": [],
             "case": {"cfg": c, "piece": piece}}
     try:
-        tok = make_tokeniser(c)
+        tok = make_tokeniser(c, defaults=(idx % 2 == 1))
         line["cfg"] = observed_cfg(c, tok)
+        perturb_returned_defaults()      # a caller edits lists returned by the default helpers; this tokeniser must not care
     except Exception as e:
         line["tokRaised"] = f"constructor {type(e).__name__}: {e}"
         return line
@@ -389,7 +393,8 @@ def closure(case):
     line = {"kind": "closure", "cfg": c, "tag": tag, "tokRaised": "", "detokRaised": "", "allKeys": False, "codecIdentity": False,
             "tokens": [], "case": {"cfg": c, "piece": piece, "tag": tag}}
     try:
-        tok = make_tokeniser(c)
+        tok = make_tokeniser(c, defaults=(idx % 2 == 1))
+        perturb_returned_defaults()
         seqs = piece_sequences(piece)
     except Exception as e:
         line["tokRaised"] = f"harness {type(e).__name__}: {e}"
@@ -538,6 +543,9 @@ def chunked(case):
     line = {"kind": "chunk", "cfg": c, "piece": piece, "cuts": cuts, "qnl": qnl is True, "route": route, "raised": "",
             "chunked": EMPTY_OUT, "single": EMPTY_OUT, "expected": [], "nbars": 0,
             "case": {"cfg": c, "piece": piece, "cuts": cuts, "qnl": qnl}}
+    # every fourth case uses the legal non-default argument insert_bar_token=False in all calls (single and chunked)
+    bar_tok = idx % 4 != 3
+    line["barTokens"] = bar_tok
     try:
         tok = make_tokeniser(c)
         seqs = piece_sequences(piece)
@@ -573,11 +581,11 @@ def chunked(case):
             ns, _ = P.notes_of_abs(P.raw_abs(s))
             exp += [{"trk": i, "p": n["p"], "s": n["s"], "e": n["e"], "v": observed_bin(tok, n["v"])} for n in ns]
         line["expected"] = exp
-        single = tok.tokenise(whole)
+        single = tok.tokenise(whole, insert_bar_token=bar_tok)
         line["single"] = project_out(tok.detokenise(tok.decode(tok.encode(single))))
         state, toks = dict(), []
         for part in chunks:
-            toks.extend(tok.tokenise(part, state_dict=state))
+            toks.extend(tok.tokenise(part, insert_bar_token=bar_tok, state_dict=state))
         line["ncalls"] = len(chunks)
         line["chunked"] = project_out(tok.detokenise(tok.decode(tok.encode(toks))))
     except Exception as e:
